@@ -5,6 +5,4 @@ NOT_APPLICABLE = {
            "Verus rejects these constructs, Kani ICEs on any reachable ic-stable-structures type, the heartbeat is an async fn. No contract within reach can express it.",
     "C09": "crash-point quantifier over pre_upgrade/post_upgrade, i.e. ciborium + derived/hand-written serde visitors and re-attached stable memory; "
            "neither tool reads serde-generic code and assuming the round trip would assume the property.",
-    "C20": "whole-history representation invariant across OutPointsCache (entry-API reference counts keyed by SHA-256 txids), BlocksCache behind "
-           "Rc<RefCell<Box<dyn>>> and NextBlockHeaders; the maintaining functions are outside both tools, only fragments are provable and are too thin to call the property decided.",
 }
